@@ -1073,9 +1073,23 @@ class TeX(object):
         self.castRef()
 
         """
-        label = self.castString(tokens, **kwargs)
+        label = self.castLabelName(tokens)
         self.ownerDocument.context.label(label)
         return label
+
+    def castLabelName(self, tokens):
+        """
+        Join the tokens of a label name into a string
+
+        A name that reached us through a macro argument has been tokenized
+        already: inside mathematics its _ or ^ then turns into a script
+        element.  Such a name is taken as it was written.
+
+        """
+        name = self.normalize(tokens)
+        if not isinstance(name, str):
+            name = name.source
+        return str(name)
 
     def castRef(self, tokens, **kwargs):
         """
@@ -1093,7 +1107,7 @@ class TeX(object):
         self.castLabel()
 
         """
-        ref = self.castString(tokens, **kwargs)
+        ref = self.castLabelName(tokens)
         self.ownerDocument.context.ref(kwargs['parentNode'], kwargs['name'], ref)
         return ref
 
